@@ -178,3 +178,89 @@ def presub_locate(scope, name, subs):
         d['body'] = body
         return d
     return locate
+
+
+# ----------------------------------------------------------------------------------------------------------------------
+# Rules introduced for unit ovl_view (the overlay's live-view bookkeeping).  Additive and opt-in (body_hooks), logged like the ones above.
+#
+# R60  `for` over the values of a HashMap, by definition     `for X in RECV.values() { B }`  ->
+#      `let VS = RECV.values_vec(); for X in IT: VS.iter() HEADER { B }`
+#      (HashMap::values: "an iterator visiting all values in arbitrary order", each value once, by reference; `values_vec` is the model
+#      constructor that yields the same values in the map's iteration order - vstd has no specification for hash_map::Values).  `X` keeps
+#      its type `&V`.  Nothing is dropped.  HEADER = loop invariants (R8).
+# R61  counter zip from zero, by definition                  `for (I, PAT) in (0_u64..).zip(OWNED) { B }`  ->
+#      `let mut I: u64 = 0; let mut IT = CTOR(OWNED); while let Some(PAT) = IT.next() HEADER { B  I = I + 1; }`
+#      (Zip::next takes the next counter value and the next element and ends with the shorter side - the collection; the counter that goes
+#      with element k is k).  B must not contain `continue` (ExtractError otherwise); a `break` / `return` leaves the loop before the
+#      increment, where the counter is dead.  The increment is an exec addition: Verus demands a proof that it does not overflow
+#      (RangeFrom<u64> would panic there in a debug build).  Nothing is dropped.
+
+def r60_for_map_values(recv_rx, vecname, label='it', header_extra='', body_prefix=''):
+    """-> hook: the single loop `for X in RECV.values() {` with RECV matching `recv_rx`"""
+    def hook(body, fired):
+        msk = X.mask(body)
+        hits = list(re.finditer(r'\bfor\s+(\w+)\s+in\s+(%s)\s*\.\s*values\(\)\s*\{' % recv_rx, msk))
+        if len(hits) != 1:
+            raise X.ExtractError('R60: `for X in %s.values() {` matches %d times' % (recv_rx, len(hits)))
+        m = hits[0]
+        x, recv = m.group(1), body[m.start(2):m.end(2)]
+        new = 'let %s = %s.values_vec(); for %s in %s: %s.iter() %s{%s' % (vecname, recv.strip(), x, label, vecname, header_extra.replace('\n', X.SEP), body_prefix.replace('\n', X.SEP))
+        fired.append('R60 for %s in %s.values() -> let %s = ..values_vec(); for %s in %s.iter()' % (x, X.norm_ws(recv), vecname, x, vecname))
+        return body[:m.start()] + X._pad(new, body[m.start():m.end()]) + body[m.end():]
+    return hook
+
+
+def r61_zip_from_zero(ctor, itname, header_extra='', body_prefix='', mid='', body_suffix=''):
+    """-> hook: the single loop `for (I, PAT) in (0_u64..).zip(OWNED) {`; HEADER_EXTRA / BODY_PREFIX / MID (between the lets and the while) /
+    BODY_SUFFIX (ghost code in front of the increment) are R8 splices"""
+    def hook(body, fired):
+        msk = X.mask(body)
+        hits = list(re.finditer(r'\bfor\s*\(\s*(\w+)\s*,\s*', msk))
+        hits = [h for h in hits if re.match(r'[^{;]*?\)\s*in\s*\(0_u64\.\.\)\s*\.zip\(', msk[h.end():])]
+        if len(hits) != 1:
+            raise X.ExtractError('R61: `for (i, pat) in (0_u64..).zip(E) {` matches %d times' % len(hits))
+        m = hits[0]
+        cnt = m.group(1)
+        k = m.end()
+        # PAT: up to the `)` that closes the outer tuple pattern
+        ob = msk.rfind('(', 0, k)
+        cb = X.match_close(msk, ob)
+        pat = body[k:cb]
+        zm = re.match(r'\s*in\s*\(0_u64\.\.\)\s*\.zip\(', msk[cb + 1:])
+        if not zm:
+            raise X.ExtractError('R61: unexpected loop header')
+        zo = cb + 1 + zm.end() - 1
+        zc = X.match_close(msk, zo)
+        owned = body[zo + 1:zc]
+        lm = re.match(r'\s*\{', msk[zc + 1:])
+        if not lm:
+            raise X.ExtractError('R61: unexpected loop header')
+        lb = zc + 1 + lm.end() - 1
+        le = X.match_close(msk, lb)
+        if re.search(r'\bcontinue\b', msk[lb:le + 1]):
+            raise X.ExtractError('R61: `continue` in the loop body')
+        head = 'let mut %s: u64 = 0; let mut %s = %s(%s);%s while let Some(%s) = %s.next() %s{%s' % (
+            cnt, itname, ctor, owned.strip(), mid.replace('\n', X.SEP), pat.strip(), itname, header_extra.replace('\n', X.SEP), body_prefix.replace('\n', X.SEP))
+        tail = '%s %s = %s + 1; }' % (body_suffix.replace('\n', X.SEP), cnt, cnt)
+        fired.append('R61 for (%s, %s) in (0_u64..).zip(%s) -> let mut %s: u64 = 0; let mut %s = %s(..); while let Some(..) = %s.next() { ..; %s = %s + 1; }' % (
+            cnt, X.norm_ws(pat), X.norm_ws(owned), cnt, itname, ctor, itname, cnt, cnt))
+        return body[:m.start()] + X._pad(head, body[m.start():lb + 1]) + body[lb + 1:le] + tail + body[le + 1:]
+    return hook
+
+
+def r8_at_loop_end(header_rx, text):
+    """-> hook (R8, ghost code only): `text` goes in front of the closing brace of the single loop whose header matches `header_rx` (a regex on the
+    masked body that ends at the loop's opening brace).  For a ghost step that must follow the LAST statement of a loop body whatever that
+    statement is (anchoring on the statement itself would lose the anchor as soon as the statement is edited)."""
+    def hook(body, fired):
+        msk = X.mask(body.replace(X.SEP, '\n'))      # ghost text spliced earlier sits behind SEP marks: a `//` comment in it ends there, not at the end of the source line
+        hits = list(re.finditer(header_rx, msk))
+        if len(hits) != 1:
+            raise X.ExtractError('R8 loop-end splice: /%s/ matches %d times' % (header_rx, len(hits)))
+        ob = hits[0].end() - 1
+        if msk[ob] != '{':
+            raise X.ExtractError('R8 loop-end splice: the header pattern does not end at the opening brace')
+        cb = X.match_close(msk, ob)
+        fired.append('R8 splice at the end of the body of the loop /%s/' % header_rx[:40])
+        return body[:cb] + X.SEP + text.replace('\n', X.SEP) + X.SEP + body[cb:]
+    return hook
